@@ -2,10 +2,10 @@
 package props
 
 import (
-	"strings"
-	"go/token"
 	"fmt"
+	"go/token"
 	"sort"
+	"strings"
 
 	"verif/checker/internal/ana"
 	"verif/checker/internal/rep"
